@@ -344,4 +344,45 @@ theorem magFmt_str (x : ℚ) : magFmt .str x = .ok (fmtG Gen.PrintingNumbers.str
 theorem uncertRecord_noExp (x xe : ℚ) (prec : ℤ) : (uncertRecord x xe prec).noExp = ilog10 (absR xe) - prec + 1 := rfl
 theorem uncertRecord_xExp (x xe : ℚ) (prec : ℤ) : (uncertRecord x xe prec).xExp = ilog10 (absR x) := rfl
 
+/-! ### the per-substance table -/
+
+theorem indexOf_getElem (keys : List (List Char)) (hnd : keys.Nodup) (i : Nat) (hi : i < keys.length) :
+    indexOf keys[i] keys = some i := by
+  induction keys generalizing i with
+  | nil => simp at hi
+  | cons x xs ih =>
+    rw [List.nodup_cons] at hnd
+    cases i with
+    | zero => simp [indexOf]
+    | succ j =>
+      have hj : j < xs.length := by simpa using hi
+      have hne : x ≠ xs[j] := fun h => hnd.1 (h ▸ List.getElem_mem hj)
+      simp [indexOf, hne, ih hnd.2 j hj]
+
+/-- `l.mapM f = ok r` for `Except`: same length and element-wise success -/
+theorem mapM_ok {α β ε : Type} (f : α → Except ε β) (l : List α) (r : List β) (h : l.mapM f = .ok r) :
+    r.length = l.length ∧ ∀ i (hi : i < l.length) (hr : i < r.length), f l[i] = .ok r[i] := by
+  induction l generalizing r with
+  | nil =>
+    simp only [List.mapM_nil, pure, Except.pure] at h
+    injection h with h; subst h; simp
+  | cons a as ih =>
+    rw [List.mapM_cons] at h
+    cases hfa : f a with
+    | error e => rw [hfa] at h; cases h
+    | ok b =>
+      rw [hfa] at h
+      cases hrest : as.mapM f with
+      | error e => rw [hrest] at h; cases h
+      | ok bs =>
+        rw [hrest] at h
+        simp only [bind, Except.bind, pure, Except.pure] at h
+        injection h with h; subst h
+        obtain ⟨hl, hel⟩ := ih bs hrest
+        refine ⟨by simp [hl], ?_⟩
+        intro i hi hr
+        cases i with
+        | zero => simpa using hfa
+        | succ j => simpa using hel j (by simpa using hi) (by simpa using hr)
+
 end ChemModel.NumFmt
